@@ -374,17 +374,65 @@ func (d DNF) eval(a *assignment) bool {
 }
 
 // implies reports whether p ⇒ q for every assignment of the base variables; a counterexample is returned otherwise.
-// ok=false with err non-nil means "too many variables" (undecided).
+// err non-nil means "too many variables" (undecided). Decided conjunct by conjunct: for each conjunct c of p the
+// literals of c fix their variables and only the remaining variables of q are enumerated.
 func implies(p, q DNF) (holds bool, counter string, err error) {
-	bits, others := collectBase(p, q)
+	if q.isTrue() || p.isFalse() {
+		return true, "", nil
+	}
+	for _, c := range p {
+		h, ctr, e := conjImplies(c, q)
+		if e != nil {
+			return false, "", e
+		}
+		if !h {
+			return false, ctr, nil
+		}
+	}
+	return true, "", nil
+}
+
+func conjImplies(c Conj, q DNF) (bool, string, error) {
+	// quick syntactic check
+	for _, qc := range q {
+		if qc.subsetOf(c) {
+			return true, "", nil
+		}
+	}
+	a := &assignment{bits: map[string]uint64{}, others: map[string]bool{}}
+	fixedBits := map[string]uint64{} // bits whose value is fixed by c
+	fixedOther := map[string]bool{}
+	for _, l := range c {
+		switch l.A.Kind {
+		case AkBit:
+			fixedBits[l.A.Subj] |= l.A.Bits
+			if !l.Neg {
+				a.bits[l.A.Subj] |= l.A.Bits
+			}
+		case AkAll:
+			if !l.Neg {
+				fixedBits[l.A.Subj] |= l.A.Bits
+				a.bits[l.A.Subj] |= l.A.Bits
+			}
+		case AkAny:
+			if l.Neg {
+				fixedBits[l.A.Subj] |= l.A.Bits
+			}
+		default:
+			fixedOther[l.A.ID()] = true
+			a.others[l.A.ID()] = !l.Neg
+		}
+	}
+	// free variables: bits and atoms of q (and of c's multi-bit literals) that are not fixed
+	qbits, qothers := collectBase(q, DNF{c})
 	type bv struct {
 		subj string
 		bit  uint64
 	}
 	var bvs []bv
-	for s, m := range bits {
+	for s, m := range qbits {
 		for b := uint64(1); b != 0 && b <= m; b <<= 1 {
-			if m&b != 0 {
+			if m&b != 0 && fixedBits[s]&b == 0 {
 				bvs = append(bvs, bv{s, b})
 			}
 		}
@@ -396,18 +444,24 @@ func implies(p, q DNF) (holds bool, counter string, err error) {
 		return bvs[i].bit < bvs[j].bit
 	})
 	var ovs []string
-	for o := range others {
-		ovs = append(ovs, o)
+	for o := range qothers {
+		if !fixedOther[o] {
+			ovs = append(ovs, o)
+		}
 	}
 	sort.Strings(ovs)
 	n := len(bvs) + len(ovs)
-	if n > 24 {
-		return false, "", fmt.Errorf("implication over %d variables is beyond the truth-table bound", n)
+	if n > 22 {
+		return false, "", fmt.Errorf("implication over %d free variables is beyond the truth-table bound", n)
 	}
-	a := &assignment{bits: map[string]uint64{}, others: map[string]bool{}}
+	base := map[string]uint64{}
+	for k, v := range a.bits {
+		base[k] = v
+	}
+	cd := DNF{c}
 	for m := uint64(0); m < 1<<uint(n); m++ {
 		for k := range a.bits {
-			a.bits[k] = 0
+			a.bits[k] = base[k]
 		}
 		for i, b := range bvs {
 			if m&(1<<uint(i)) != 0 {
@@ -417,8 +471,12 @@ func implies(p, q DNF) (holds bool, counter string, err error) {
 		for i, o := range ovs {
 			a.others[o] = m&(1<<uint(len(bvs)+i)) != 0
 		}
-		if p.eval(a) && !q.eval(a) {
+		if cd.eval(a) && !q.eval(a) {
 			var parts []string
+			for _, l := range c {
+				parts = append(parts, l.String())
+			}
+			sort.Strings(parts)
 			for i, b := range bvs {
 				if m&(1<<uint(i)) != 0 {
 					parts = append(parts, fmt.Sprintf("bit(%s,%#x)", b.subj, b.bit))
